@@ -4,10 +4,11 @@ package receive
 
 import "errors"
 
-// VerifC21Shard returns the nodes of tenant's sub-ring on the shuffle-sharded hashring that is the only entry of
-// the multi-hashring h: freshly computed (getTenantShard) or through the cache (getTenantShardCached, the ring
-// GetN answers from).
-func VerifC21Shard(h Hashring, tenant string, cached bool) ([]Endpoint, error) {
+// verifC21Unwrap finds the shuffle-sharded hashring: h itself, or the only entry of the multi-hashring h.
+func verifC21Unwrap(h Hashring) (*shuffleShardHashring, error) {
+	if s, ok := h.(*shuffleShardHashring); ok {
+		return s, nil
+	}
 	m, ok := h.(*multiHashring)
 	if !ok || len(m.hashrings) != 1 {
 		return nil, errors.New("verif: not a multi-hashring with one entry")
@@ -16,8 +17,18 @@ func VerifC21Shard(h Hashring, tenant string, cached bool) ([]Endpoint, error) {
 	if !ok {
 		return nil, errors.New("verif: not a shuffle-sharded hashring")
 	}
+	return s, nil
+}
+
+// VerifC21Shard returns the nodes of tenant's sub-ring on the shuffle-sharded hashring h (or the only entry of
+// the multi-hashring h): freshly computed (getTenantShard) or through the cache (getTenantShardCached, the ring
+// GetN answers from).
+func VerifC21Shard(h Hashring, tenant string, cached bool) ([]Endpoint, error) {
+	s, err := verifC21Unwrap(h)
+	if err != nil {
+		return nil, err
+	}
 	var k *ketamaHashring
-	var err error
 	if cached {
 		k, err = s.getTenantShardCached(tenant)
 	} else {
@@ -31,13 +42,42 @@ func VerifC21Shard(h Hashring, tenant string, cached bool) ([]Endpoint, error) {
 
 // VerifC21CacheLen is the number of cached sub-rings.
 func VerifC21CacheLen(h Hashring) int {
-	m, ok := h.(*multiHashring)
-	if !ok || len(m.hashrings) != 1 {
-		return -1
-	}
-	s, ok := m.hashrings[0].(*shuffleShardHashring)
-	if !ok {
+	s, err := verifC21Unwrap(h)
+	if err != nil {
 		return -1
 	}
 	return s.cache.Len()
+}
+
+// VerifC21SmallRing is the shuffle-sharded hashring newHashring builds, except that the base ketama ring has
+// sectionsPerNode sections per node instead of SectionsPerNode (1000).
+func VerifC21SmallRing(endpoints []Endpoint, sectionsPerNode int, replicationFactor uint64, cfg ShuffleShardingConfig) (Hashring, error) {
+	base, err := newKetamaHashring(endpoints, sectionsPerNode, replicationFactor)
+	if err != nil {
+		return nil, err
+	}
+	return newShuffleShardHashring(base, cfg, replicationFactor, nil, "verif")
+}
+
+// VerifC21Section is one section of the base ring: its position and the node that owns it.
+type VerifC21Section struct {
+	Hash uint64
+	Node Endpoint
+}
+
+// VerifC21BaseSections lists the sections of the base ketama ring in ring order (read-only).
+func VerifC21BaseSections(h Hashring) ([]VerifC21Section, error) {
+	s, err := verifC21Unwrap(h)
+	if err != nil {
+		return nil, err
+	}
+	b, ok := s.baseRing.(*ketamaHashring)
+	if !ok {
+		return nil, errors.New("verif: base ring is not a ketama ring")
+	}
+	out := make([]VerifC21Section, 0, len(b.sections))
+	for _, sec := range b.sections {
+		out = append(out, VerifC21Section{Hash: sec.hash, Node: b.endpoints[sec.endpointIndex]})
+	}
+	return out, nil
 }
